@@ -63,6 +63,7 @@ def check_case(ctx, case, enum=False, cls_hint=None):
     sig = SU.sig_from_json(case["sig"])
     mode = case.get("mode", 0)
     ctx.ev()
+    ctx.case_sample(case)
     over = not at and len(digest) > SU.olen(n)
     rs = SU.strict_decode(dec, sig, n)
     if rs is None:
